@@ -31,7 +31,7 @@ fn a(name: &str, v: GExpr) -> GAttr {
 }
 
 /// a step program that works on nodes of earlier steps (globals prev0, prev1)
-fn prev_program(rng: &mut Rng, step: usize, conflict: bool) -> GFile {
+fn prev_program(rng: &mut Rng, step: usize, conflict: bool, cross: Option<(String, GExpr)>) -> GFile {
     let mut items = vec![
         Item::Global(GGlobal { name: "prev0".into(), quant: Quant::One, default: None, loc: Loc::default() }),
         Item::Global(GGlobal { name: "prev1".into(), quant: Quant::One, default: None, loc: Loc::default() }),
@@ -57,6 +57,11 @@ fn prev_program(rng: &mut Rng, step: usize, conflict: bool) -> GFile {
     if rng.chance(1, 2) {
         // equal re-assignment of an attribute an earlier step may have set
         s.push(stmt(StmtKind::AttrNode(p1(), vec![a("constant", GExpr::str("same every time"))])));
+    }
+    if let Some((name, value)) = cross {
+        // an attribute that only an EARLIER execution set on prev0: equal value is accepted,
+        // a different one must fail
+        s.push(stmt(StmtKind::AttrNode(p0(), vec![a(&name, value)])));
     }
     if conflict {
         // a different value for an attribute that exists: must fail, keeping neither silently
@@ -155,18 +160,53 @@ impl Prop for C09 {
         for step in 0..steps {
             let lazy = rng.chance(1, 2);
             let n0 = graph.node_count();
+            let before = match observe_graph_multi(&graph, &tis) {
+                Ok(g) => g,
+                Err(e) => {
+                    out.violation("C09:unreadable-graph", &e, json!({"history": history}));
+                    return;
+                }
+            };
             // pick the program
             let (mut file, mut globals, kind): (GFile, BTreeMap<String, MVal>, &str) = if n0 >= 2 && rng.chance(3, 5) {
-                let conflict = rng.chance(1, 5);
+                let conflict = rng.chance(1, 6);
                 let mut g = BTreeMap::new();
-                let p0 = rng.below(n0);
+                let mut p0 = rng.below(n0);
+                // an attribute of an earlier execution on some node, with a scalar value
+                let mut cross: Option<(String, GExpr)> = None;
+                let mut cross_kind = "";
+                if rng.chance(1, 2) {
+                    let cands: Vec<(usize, String, MVal)> = before
+                        .nodes
+                        .iter()
+                        .enumerate()
+                        .flat_map(|(i, n)| n.attrs.iter().filter(|(k, v)| matches!(v, MVal::Int(_) | MVal::Str(_) | MVal::Bool(_)) && !k.starts_with("dbg_")).map(move |(k, v)| (i, k.clone(), v.clone())))
+                        .collect();
+                    if !cands.is_empty() {
+                        let (i, k, v) = cands[rng.below(cands.len())].clone();
+                        p0 = i;
+                        let same = rng.chance(1, 2);
+                        let e = match (&v, same) {
+                            (MVal::Int(x), true) => GExpr::Int(*x),
+                            (MVal::Int(x), false) => GExpr::Int(x.wrapping_add(1)),
+                            (MVal::Str(x), true) => GExpr::Str(x.clone()),
+                            (MVal::Str(x), false) => GExpr::Str(format!("{}!", x)),
+                            (MVal::Bool(x), true) => if *x { GExpr::True } else { GExpr::False },
+                            (MVal::Bool(x), false) => if *x { GExpr::False } else { GExpr::True },
+                            _ => GExpr::Null,
+                        };
+                        cross = Some((k, e));
+                        cross_kind = if same { "prev_equal_value_across_executions" } else { "prev_conflict_across_executions" };
+                    }
+                }
                 let mut p1 = rng.below(n0);
                 if p1 == p0 {
                     p1 = (p0 + 1) % n0;
                 }
                 g.insert("prev0".to_string(), MVal::GNode(p0));
                 g.insert("prev1".to_string(), MVal::GNode(p1));
-                (prev_program(rng, step, conflict), g, if conflict { "prev_with_conflict" } else { "prev" })
+                let kind = if !cross_kind.is_empty() { cross_kind } else if conflict { "prev_with_conflict" } else { "prev" };
+                (prev_program(rng, step, conflict, cross), g, kind)
             } else {
                 let mut cfg = GenCfg::order_insensitive();
                 cfg.max_stanzas = 3;
@@ -205,13 +245,6 @@ impl Prop for C09 {
                     }
                 }
                 v
-            };
-            let before = match observe_graph_multi(&graph, &tis) {
-                Ok(g) => g,
-                Err(e) => {
-                    out.violation("C09:unreadable-graph", &e, json!({"history": history}));
-                    return;
-                }
             };
             history.push(json!({"step": step, "mode": if lazy { "lazy" } else { "strict" }, "kind": kind, "dsl": text, "source": sources[step], "globals": globals.iter().map(|(k, v)| (k.clone(), v.to_json())).collect::<serde_json::Map<_, _>>(), "debug_attributes": use_debug, "nodes_before": n0}));
             hist_hash = mix(&[hist_hash, hash_str(&text), hash_str(&sources[step]), lazy as u64]);
@@ -281,6 +314,9 @@ impl Prop for C09 {
                     if n0 > 0 {
                         out.feat("executed_into_non_empty_graph");
                     }
+                    if kind == "prev_equal_value_across_executions" {
+                        out.feat("equal_value_of_earlier_execution_accepted");
+                    }
                     if counters.edge_recreated > 0 {
                         out.feat("existing_edge_recreated");
                     }
@@ -300,6 +336,9 @@ impl Prop for C09 {
                     }
                     if kind == "prev_with_conflict" {
                         out.feat("conflicting_value_rejected");
+                    }
+                    if kind == "prev_conflict_across_executions" {
+                        out.feat("conflict_with_value_of_earlier_execution_rejected");
                     }
                     break;
                 }
